@@ -1174,7 +1174,7 @@ func checkDrawnIVs(c *Ctx) {
 			if len(vals) < minDistinct {
 				w0, w1 := drawnIVs[0], drawnIVs[n-1]
 				c.Violate(Violation{Property: "C12", Key: "C12:base-iv-not-random", What: fmt.Sprintf("byte %d of the base IV takes only %d different value(s) over %d key installations: the IV is not 16 fresh random bytes", pos, len(vals), n),
-					Ops: []string{"# " + w0.where + fmt.Sprintf(": IV %x", w0.iv), "# " + w1.where + fmt.Sprintf(": IV %x", w1.iv)},
+					Ops:      []string{"# " + w0.where + fmt.Sprintf(": IV %x", w0.iv), "# " + w1.where + fmt.Sprintf(": IV %x", w1.iv)},
 					Expected: fmt.Sprintf("every byte position takes >= %d different values over %d draws (uniform bytes give far more)", minDistinct, n),
 					Observed: fmt.Sprintf("position %d: %d distinct value(s)", pos, len(vals))})
 				break
